@@ -19,10 +19,16 @@ func main() {
 			sw = 3
 		}
 		sc := mcx.Scenario{Name: p.Name(), Body: p.Body(), Cfg: mc.Config{GOMAXPROCS: p.Procs}, Bound: 3, ThoroughBound: 4, SwitchBound: sw, Family: "par/" + p.Variant, MaxTime: 3 * time.Minute}
-		if p.N >= 1000 {
+		if p.N >= 300 {
 			sc.Cfg.MaxSteps = 400000
 		}
-		if p.N >= 17 {
+		if p.N >= 40 && p.N < 300 && len(p.Fail) > 0 {
+			// two preemptions: into the other worker, and back while it is in the middle of its work
+			sc.Bound, sc.ThoroughBound, sc.SwitchBound = 2, 2, 1
+		} else if p.N >= 300 && len(p.Fail) > 0 {
+			// the failing call has to finish while another worker is in the middle of its work
+			sc.Bound, sc.ThoroughBound, sc.SwitchBound = 1, 1, 1
+		} else if p.N >= 17 {
 			sc.Bound, sc.ThoroughBound, sc.SwitchBound = 0, 1, 1
 		} else if p.N >= 5 {
 			sc.Bound, sc.ThoroughBound, sc.SwitchBound = 1, 2, 2
